@@ -1,6 +1,7 @@
 package main
 
 import (
+	"go/token"
 	"fmt"
 	"strings"
 
@@ -514,6 +515,10 @@ func runC15(e *Engine, r *Report, tier string) {
 					}
 				})
 				r.Check(okC, "R5", e.FnKey(f), e.Pos(f.Pos()), "a differing type URL returns an error", "the same-type check no longer fails on differing message types")
+				// ... and it looks at every message: the loop runs over the whole list (range, or an index bounded by
+				// len(msgs) itself starting at 0 or 1)
+				whole, why := loopCoversWholeSlice(f)
+				r.Check(whole, "R5", e.FnKey(f)+" all-messages", e.Pos(f.Pos()), "the comparison loop covers the whole message list", "the same-type check does not look at every message ("+why+"): a proposal whose unchecked message has another type is accepted, and deposit minimum, voting period and quorum are taken from the first message's type only")
 			}
 		}
 	}
@@ -685,4 +690,63 @@ func sameParamsValue(a, v ssa.Value, vk string) bool {
 		}
 	}
 	return false
+}
+
+// loopCoversWholeSlice: f has a loop over one of its slice parameters whose header is `i < len(param)` (or the rotated
+// range form `i+1 < len(param)` with i starting at -1) with the index starting at 0 or 1 and stepping by 1.
+func loopCoversWholeSlice(f *ssa.Function) (bool, string) {
+	why := "no loop over the list found"
+	for _, b := range f.Blocks {
+		iff, ok := b.Instrs[len(b.Instrs)-1].(*ssa.If)
+		if !ok {
+			continue
+		}
+		bo, ok := iff.Cond.(*ssa.BinOp)
+		if !ok || bo.Op != token.LSS {
+			continue
+		}
+		// a loop header: the block is reachable from its own true successor
+		if _, loop := loopOf(b); loop == nil {
+			continue
+		}
+		lc, isLen := bo.Y.(*ssa.Call)
+		if !isLen {
+			why = "the loop bound is not len(list) itself"
+			continue
+		}
+		bi, isB := lc.Call.Value.(*ssa.Builtin)
+		if !isB || bi.Name() != "len" || len(lc.Call.Args) != 1 {
+			why = "the loop bound is not len(list) itself"
+			continue
+		}
+		if _, isPar := stripConv(lc.Call.Args[0]).(*ssa.Parameter); !isPar {
+			why = "the loop does not run over the list parameter"
+			continue
+		}
+		// index: phi(start, idx+1) or (phi(-1, ·) + 1) in the range form
+		idx := bo.X
+		start := int64(99)
+		if add, ok := idx.(*ssa.BinOp); ok && add.Op == token.ADD {
+			if one, ok := constInt(add.Y); ok && one == 1 {
+				if ph, ok := add.X.(*ssa.Phi); ok {
+					for _, ed := range ph.Edges {
+						if k, ok := constInt(ed); ok {
+							start = k + 1
+						}
+					}
+				}
+			}
+		} else if ph, ok := idx.(*ssa.Phi); ok {
+			for _, ed := range ph.Edges {
+				if k, ok := constInt(ed); ok {
+					start = k
+				}
+			}
+		}
+		if start == 0 || start == 1 {
+			return true, ""
+		}
+		why = "the loop index does not start at the first or second element"
+	}
+	return false, why
 }
